@@ -103,7 +103,7 @@ pub fn malformed_gen(depth: usize) -> Vec<(String, &'static str, bool)> {
     }
     // malformed version headers
     for ws in [" ", "  "] {
-        for bad in ["x", "3.", "3.x", "3x", ".5", ";"] {
+        for bad in ["x", "3.", "3.x", "3x", ".5", ";", "3.0.1", "3.0.0.0", "3.0.", "3..0", "3.0x", "-3", "+3.0"] {
             v.push((format!("OPENQASM{}{}", ws, bad), "version_header", false));
         }
     }
